@@ -36,10 +36,16 @@ static void* worker(void* p) {
     char* out = malloc(POLYSEED_STR_SIZE); uint8_t* img = malloc(32); uint8_t* key = malloc(32);
     uint64_t T = 0x20;
     if (c->concurrent) pthread_barrier_wait(&g_bar);
+    /* every thread finds the languages itself, and nobody has asked the registry before: whatever the library sets up on the first use
+     * of its language registry (or of a language) is set up under contention, in a fresh process */
+    const polyseed_lang* lib[PV_MAXLANG] = { 0 };
+    { int nl = polyseed_get_num_langs();
+      for (int i = 0; i < nl; ++i) { const polyseed_lang* l = polyseed_get_lang(i); const char* en = polyseed_get_lang_name_en(l);
+          for (int q = 0; q < pv_nlangs; ++q) if (en && !strcmp(en, pv_langs[q].name_en) && !lib[q]) lib[q] = l; } }
     for (int k = 0; k < c->nops; ++k) {
         uint32_t op = pv_randn(&r, OP_N); int sl = (int)pv_randn(&r, NSL);
         /* Chinese lists are searched linearly (50x slower under TSan): drawn less often */
-        int li; do { li = (int)pv_randn(&r, (uint32_t)pv_nlangs); } while (!pv_langs[li].lib || (!strncmp(pv_langs[li].key, "zh", 2) && pv_randn(&r, 8)));
+        int li; do { li = (int)pv_randn(&r, (uint32_t)pv_nlangs); } while (!lib[li] || (!strncmp(pv_langs[li].key, "zh", 2) && pv_randn(&r, 8)));
         pv_mlang* L = &pv_langs[li];
         unsigned coin = pv_gen_coin(&r);
         if ((op == OP_ENCODE || op == OP_STORE || op == OP_CRYPT || op == OP_KEYGEN || op == OP_GETTERS || op == OP_FREE) && !S[sl]) op = OP_CREATE;
@@ -79,7 +85,7 @@ static void* worker(void* p) {
                 const polyseed_lang* lo = NULL;
                 bool want_lang = pv_randn(&r, 2);          /* lang_out is optional */
                 if (op == OP_DECODE && !want_lang) c->decodes_without_lang_out++;
-                st = op == OP_DECODE ? polyseed_decode(ph, (polyseed_coin)coin, want_lang ? &lo : NULL, &S[sl]) : polyseed_decode_explicit(ph, (polyseed_coin)coin, L->lib, &S[sl]);
+                st = op == OP_DECODE ? polyseed_decode(ph, (polyseed_coin)coin, want_lang ? &lo : NULL, &S[sl]) : polyseed_decode_explicit(ph, (polyseed_coin)coin, lib[li], &S[sl]);
                 if (st == POLYSEED_OK && op == OP_DECODE && want_lang) T = pv_mix(T, pv_hash_str(polyseed_get_lang_name_en(lo)));
             }
             T = pv_mix(T, (uint64_t)st);
@@ -92,7 +98,7 @@ static void* worker(void* p) {
             if (st == POLYSEED_OK) { polyseed_store(S[sl], img); uint8_t mi[32]; pv_m_image(&m, mi); if (memcmp(img, mi, 32) && !c->model_mismatch++) snprintf(c->first_mismatch, sizeof c->first_mismatch, "%s: decoded/loaded seed differs from the model", OPN[op]); T = pv_mix(T, pv_hash(img, 32, 1)); }
             break; }
         case OP_ENCODE: {
-            size_t n = polyseed_encode(S[sl], L->lib, (polyseed_coin)coin, out);
+            size_t n = polyseed_encode(S[sl], lib[li], (polyseed_coin)coin, out);
             char want[2048]; pv_m_encode(&M[sl], L, coin, want, sizeof want);
             if (strcmp(want, out) && !c->model_mismatch++) snprintf(c->first_mismatch, sizeof c->first_mismatch, "encode (%s): '%.60s...' vs model '%.60s...'", L->name_en, out, want);
             T = pv_mix(T, pv_hash(out, n, 2)); break; }
@@ -135,7 +141,7 @@ static void init(void) {
     pv_world_init(pv.seed);
     pv_model_init();
     pv_inject_default();           /* once, before any thread exists */
-    pv_model_bind_library();
+    /* (no pv_model_bind_library here: the main thread never touches the language registry, the workers do - see worker()) */
     pv_api_enable_features(3);
     pv_info("rule", "N threads (8 and 16) x deterministic scripts of create/decode/decode_explicit/load/encode/store/crypt/keygen/getters/free on private seeds, all languages, random "
                     "yields and spins inside the dependency callbacks; several repetitions with different yield seeds. Oracles: ThreadSanitizer reports with a library frame (reported by "
